@@ -77,7 +77,9 @@ func payload(id uint64, n int) []byte {
 	// one write id in eleven carries a structured content: after a random head (which keeps the
 	// value unique) a run of zero bytes at the end, in the middle or everywhere - contents as
 	// sparse files, padded records and pre-allocated blobs have them
-	if id%11 == 7 && n > 16 {
+	// (residue 8: no write id of the committed fixture, whose bytes were produced by this function
+	// at the pinned revision, falls on it with more than 16 bytes)
+	if id%11 == 8 && n > 16 {
 		body := b[9:]
 		run := []int{len(body), 4096, 8192, 32768, 40960, len(body) / 2}[int(id/11)%6]
 		if run > len(body) {
